@@ -102,7 +102,8 @@ def out_of_bounds(chk):
         tol = ("fld", SELF, "tolerance", 0)
         held_target = sym.lit_holds(g, ("in", cname, targets), True)
         exceeded = sym.lit_holds(g, canon(("cmp", ">", dev, tol)), True)
-        extra = [l for l in plain(e.guard) if not (sym.contains(l[0], lambda n: n == cname) or sym.contains(l[0], lambda n: n == ("str", "weights")))]
+        allowed = sym.sat([(("in", cname, targets), True), (canon(("cmp", ">", dev, tol)), True), (("in", ("str", "weights"), temp), True)])
+        extra = [l for l in plain(e.guard) if not sym.lit_holds(allowed, l[0], l[1])]  # any further condition exempts some held target from the test
         ok = over_children and held_target and exceeded and canon(e.value) == canon(sym.TRUE) and not extra
         chk.ob("C13.R5", ok, ALGOS, host, "deviation-rule", "True exactly when some held target's weight deviates from its target by more than the tolerance, relative to the target (either sign)",
                where=e.where, expected="abs((c.weight - w) / w) > tolerance for a child in both children and targets", found=sym.fmt_guard(plain(e.guard))[:260],
